@@ -211,9 +211,22 @@ def manifest_check(res, tier, seed, threads=4):
     base = tempfile.mkdtemp(prefix='rws-c13-')
     try:
         ar = make_arena(base, rng.fork('arena'), n_files=30 if tier == 'quick' else 80)
+        # special files among the served ones: a named pipe, a unix socket (bound, nobody listening), links to both - a server that
+        # "tidies up" a stale endpoint it was asked for changes the tree
+        import socket as _so
+        sp = os.path.join(ar.docroot, 'special'); os.makedirs(sp, exist_ok=True)
+        os.mkfifo(os.path.join(sp, 'pipe.fifo')); os.mkfifo(os.path.join(sp, 'page.html'))
+        _u = _so.socket(_so.AF_UNIX); _u.bind(os.path.join(sp, 'endpoint.sock')); _u.close()
+        os.symlink('pipe.fifo', os.path.join(sp, 'to-pipe.lnk')); os.symlink('endpoint.sock', os.path.join(sp, 'to-sock.lnk'))
         before = manifest(ar.base)
         with R.Server(ar.docroot, threads=threads, env={'TMPDIR': ar.tmpdir}, capture_stdout=False) as srv:
             pairs = run_campaign(srv, rng.fork('campaign'), tier, ar.files)
+            for t in ('/special/pipe.fifo', '/special/endpoint.sock', '/special/to-pipe.lnk', '/special/to-sock.lnk', '/special/page', '/special/page.html', '/special/', '/special'):
+                for m in ('GET', 'HEAD', 'OPTIONS', 'POST', 'DELETE'):
+                    raw = f'{m} {t} HTTP/1.1\r\nHost: localhost\r\n\r\n'.encode()
+                    try: a = srv.request(raw, timeout=5)
+                    except Exception as e: a = e      # noqa: answered or not is C04/C06's; the tree is what is judged here
+                    pairs.append((raw, a))
             alive = srv.alive()
         after = manifest(ar.base)
         d = diff_manifest(before, after)
